@@ -34,6 +34,8 @@ EXPECT = {
     "seed-C14-h": ["C14"], "seed-C17-h": ["C17"], "seed-C19-h": ["C19"],
     "seed-C01-i": ["C01", "C03"], "seed-C03-i": ["C03"], "seed-C05-i": ["C05"], "seed-C07-i": ["C07"], "seed-C09-i": ["C09"], "seed-C10-i": ["C10"],
     "seed-C15-i": ["C15"], "seed-C16-i": ["C16", "C08"], "seed-C18-i": ["C18"],
+    "seed-C02-j": ["C02", "C05"], "seed-C03-j": ["C03", "C05"], "seed-C05-j": ["C05"], "seed-C08-j": ["C08"], "seed-C11-j": ["C11"], "seed-C12-j": ["C12"],
+    "seed-C13-j": ["C13"], "seed-C15-j": ["C15"], "seed-C16-j": ["C16", "C05"], "seed-C19-j": ["C19"],
 }
 
 
